@@ -147,7 +147,10 @@ func exactKey(ts []*sdf.Triangle3) string {
 
 // dependsKey names what the output wrongly depends on.
 func dependsKey(kind string) string {
-	if strings.Contains(kind, "history") || strings.HasPrefix(kind, "reuse") {
+	if strings.Contains(kind, "history") || strings.HasPrefix(kind, "reuse") || strings.HasSuffix(kind, "-two") {
+		if strings.HasSuffix(kind, "-two") {
+			return "output-depends-on-schedule"
+		}
 		return "output-depends-on-earlier-renders"
 	}
 	return "output-depends-on-schedule"
@@ -194,6 +197,11 @@ func (r scriptedTris) Render(_ sdf.SDF3, out sdf.Triangle3Writer) {
 	out.Close()
 }
 func (scriptedTris) Info(sdf.SDF3) string { return "scripted" }
+
+type dummy3 struct{}
+
+func (dummy3) Evaluate(v3.Vec) float64 { return 1 }
+func (dummy3) BoundingBox() sdf.Box3   { return sdf.Box3{Max: v3.Vec{X: 1, Y: 1, Z: 1}} }
 
 var work = filepath.Join(vlib.VerifDir, ".work", "c09")
 
@@ -357,6 +365,56 @@ func prepare(sc scen, j *vlib.Job) *prepared {
 					r3, r2 = mk3(), mk2()
 				}
 				out = append(out, one(w, r3, r2))
+			}
+		}
+	case "stl-two", "stl-path-history", "svg-path-history":
+		// STL / SVG sinks on the in-memory file system: two different renders concurrently (different paths),
+		// and a longer render followed by a shorter one to the SAME path; every file must equal the file written
+		// by the same render executed alone on a fresh path
+		one := func(which int, path string) {
+			if strings.HasPrefix(sc.Kind, "svg") {
+				render.ToSVG(circle{1}, path, scriptedLines{first: 100 * which, batches: 4 - 2*which})
+			} else {
+				render.ToSTL(dummy3{}, path, scriptedTris{first: 100 * which, batches: 4 - 2*which})
+			}
+		}
+		digest := func(path string) string {
+			d := vos.Files[path]
+			if d == nil {
+				return "no file"
+			}
+			return fmt.Sprintf("%d:%x", len(d.B), sha256.Sum256(d.B))
+		}
+		var alone [2]string
+		for w := 0; w < 2; w++ {
+			w := w
+			vsync.RunOnce(nil, false, func() { vos.Reset(nil); one(w, "alone") })
+			alone[w] = digest("alone")
+		}
+		if sc.Kind == "stl-two" {
+			p.indep = fmt.Sprint([]string{alone[0], alone[1]})
+			p.body = func() {
+				vos.Reset(nil)
+				out = make([]string, 2)
+				var wg vsync.WaitGroup
+				wg.Add(1)
+				vsync.Go(func() {
+					defer wg.Done()
+					one(1, "b")
+				})
+				one(0, "a")
+				wg.Wait()
+				out[0], out[1] = digest("a"), digest("b")
+			}
+		} else {
+			p.indep = fmt.Sprint([]string{alone[0], alone[1], alone[0]})
+			p.body = func() {
+				vos.Reset(nil)
+				out = nil
+				for _, w := range []int{0, 1, 0} { // long, short, long on one path
+					one(w, "same")
+					out = append(out, digest("same"))
+				}
 			}
 		}
 	case "dxf-two", "dxf-history", "3mf-two":
@@ -536,6 +594,7 @@ func main() {
 		scen{Kind: "octree", Workers: 1, Bound: -1}, scen{Kind: "svg", Workers: 1, Bound: -1},
 		scen{Kind: "octree-history", Workers: 1, Bound: -1}, scen{Kind: "reuse-octree", Workers: 1, Bound: -1}, scen{Kind: "reuse-uniform", Workers: 2, Bound: 1},
 		scen{Kind: "reuse-quadtree", Workers: 1, Bound: -1}, scen{Kind: "reuse-squares", Workers: 1, Bound: -1}, scen{Kind: "reuse-dc2d", Workers: 1, Bound: -1},
+		scen{Kind: "stl-two", Workers: 1, Bound: -1}, scen{Kind: "stl-path-history", Workers: 1, Bound: -1}, scen{Kind: "svg-path-history", Workers: 1, Bound: -1},
 		scen{Kind: "dxf-two", Workers: 1, Bound: -1}, scen{Kind: "dxf-history", Workers: 1, Bound: -1}, scen{Kind: "3mf-two", Workers: 1, Bound: -1})
 	if c.Thorough() {
 		scens = append(scens, scen{Kind: "triangles", Lattice: "1x14x13 n=14 (layer 225: 3 batches)", Workers: 3, Every: 100, Bound: 2},
